@@ -1504,8 +1504,8 @@ def run(ctx):
     n = ctx.scale(1400, 20000)
     cases = directed() + [gen_case(ctx.rng, big=(ctx.tier == 'thorough' and k % 4 == 0)) for k in range(n)]
     cases += [gen_small_fresnel(ctx.rng) for _ in range(ctx.scale(40, 500))]
-    cases += [gen_small_fresnel(ctx.rng, budget=b) for b in [36000] * ctx.scale(6, 40) + [300000] * ctx.scale(2, 12)]       # up to My*Mx = 64
-    cases += [gen_small_fresnel(ctx.rng, budget=36000, ir=True) for _ in range(ctx.scale(12, 150))]
+    cases += [gen_small_fresnel(ctx.rng, budget=b) for b in [36000] * ctx.scale(6, 20) + [300000] * ctx.scale(2, 4)]       # up to My*Mx = 64
+    cases += [gen_small_fresnel(ctx.rng, budget=36000, ir=True) for _ in range(ctx.scale(12, 40))]
     cases += [gen_peraxis(ctx.rng) for _ in range(ctx.scale(60, 800))]
     all_lines, spans, kept = [], [], []
     with warnings.catch_warnings():
